@@ -14,12 +14,10 @@ import (
 	"sort"
 	"strings"
 
-	dtypes "github.com/chain4energy/c4e-chain/x/cfedistributor/types"
 	mtypes "github.com/chain4energy/c4e-chain/x/cfeminter/types"
 	sdk "github.com/cosmos/cosmos-sdk/types"
 	abci "github.com/tendermint/tendermint/abci/types"
 
-	"verif/harness/distributor"
 	"verif/harness/env"
 	"verif/harness/graph"
 	"verif/harness/walk"
@@ -167,22 +165,32 @@ func RunTrace(hdr, out string, n int, seed int64) (*TraceStats, error) {
 				}
 				emit(graph.M{"ev": "opaque", "m": m["m"], "outcome": outcome, "post": s.postOf(s.project(en, ctx), sup0)})
 			}
-			if rng.Intn(7) == 0 {
+			if rng.Intn(6) == 0 {
 				var ev graph.M
+				kind, list := "minter", mups
 				if rng.Intn(2) == 0 {
-					k := rng.Intn(len(mups))
-					p := s.meta.BuildParams(graph.Rec(mups[k]))
-					outcome, _, _, _ := en.Deliver(ctx, &mtypes.MsgUpdateParams{Authority: env.Gov(), MintDenom: p.MintDenom, StartTime: p.StartTime, Minters: p.Minters})
-					ev = graph.M{"ev": "update", "kind": "minter", "i": k + 1, "ok": outcome == "ok"}
+					kind, list = "dist", dups
+				}
+				k := rng.Intn(len(list))
+				if rng.Intn(3) == 0 {
+					// the update followed by a failing message in one transaction: nothing may remain of it
+					outcome, detail := en.DeliverTx(ctx, s.updateMsg(kind, list[k]), s.failingMsg())
+					if outcome == "rejected" && strings.HasPrefix(detail, "handler of message 1") {
+						ev = graph.M{"ev": "failedtx", "kind": kind, "i": k + 1}
+					} else if outcome == "rejected" {
+						ev = graph.M{"ev": "update", "kind": kind, "i": k + 1, "ok": false}
+					} else {
+						st.Findings = append(st.Findings, walk.Finding{Prop: "C13", Kind: "outcome", Sig: "trace.chain.failedtx", Msg: "a transaction with a failing message was " + outcome + ": " + detail})
+						break
+					}
 				} else {
-					k := rng.Intn(len(dups))
-					outcome, _, _, _ := en.Deliver(ctx, &dtypes.MsgUpdateParams{Authority: env.Gov(), SubDistributors: distributor.BuildCfg(s.meta.P, s.ids, dups[k])})
-					ev = graph.M{"ev": "update", "kind": "dist", "i": k + 1, "ok": outcome == "ok"}
-					if outcome == "ok" {
+					outcome, _, _, _ := en.Deliver(ctx, s.updateMsg(kind, list[k]))
+					ev = graph.M{"ev": "update", "kind": kind, "i": k + 1, "ok": outcome == "ok"}
+					if outcome == "ok" && kind == "dist" {
 						curDist = dups[k]
 					}
 				}
-				st.Counts[fmt.Sprintf("update.%s.%v", ev["kind"], ev["ok"])]++
+				st.Counts[fmt.Sprintf("%s.%s.%v", ev["ev"], ev["kind"], ev["ok"])]++
 				ev["post"] = s.postOf(s.project(en, ctx), sup0)
 				emit(ev)
 			}
